@@ -413,6 +413,7 @@ pub struct World {
     pub inflight_cache_uids: Vec<u32>,
     pub inflight_acc: Vec<(u32, usize)>,
     pub prog_wants_access: bool,
+    pub prog_readonly_churn: bool,
     pub gen_set: Vec<bool>,
 }
 
